@@ -87,6 +87,7 @@ def parseAx : Sexp → Option Ax
   | .atom "min" => some .min
   | .atom "max" => some .max
   | .atom "not" => some .not
+  | .atom "argmin" => some .argmin
   | _ => none
 
 def parseItem : Sexp → Option SItem
